@@ -5,6 +5,7 @@ import (
 	"verifharness/checks/c01"
 	"verifharness/checks/c02"
 	"verifharness/checks/c03b"
+	"verifharness/checks/c03c"
 	"verifharness/checks/c09"
 	"verifharness/checks/c10"
 	"verifharness/checks/c16"
@@ -22,9 +23,14 @@ func init() {
 	registry["C17"] = entry{"fault_enumeration", c17.Run}
 	registry["C18"] = entry{"exploration", c18.Run}
 	registry["C03"] = entry{"model_checking", func(r *rep.Run) {
+		if os.Getenv("VERIF_C03C_WORKER") != "" {
+			c03c.RunC(r) // a part C worker process
+			return
+		}
 		c18.Run03A(r)
 		if _, _, worker := rep.Shard(); !worker && os.Getenv("VERIF_REPLAY") == "" {
 			c03b.RunB(r)
+			c03c.RunC(r)
 		}
 	}}
 }
